@@ -68,7 +68,11 @@ def readable_problem(s, count):
 def check_count(ctx, case):
     from neuroglancer_scripts.utils import readable_count
     count = case["count"]
-    arg = np.int64(count) if case.get("np") else count
+    rep = case.get("rep") or ("np.int64" if case.get("np") else "int")
+    arg = {"int": int, "np.int64": np.int64, "np.uint64": np.uint64,
+           "float": float, "np.float64": np.float64}[rep](count)
+    if int(arg) != count:
+        raise AssertionError("harness: representation changes the count")
     s = readable_count(arg)
     p = readable_problem(s, count)
     if p:
@@ -125,12 +129,22 @@ def run_hyp(ctx, n):
     ints = st.one_of(st.integers(0, 2 ** 70), boundary,
                      st.integers(0, 70).map(lambda e: 2 ** e),
                      st.integers(0, 2 ** 20))
-    strat = st.builds(lambda c, np_: {"count": c, "np": np_ and c < 2 ** 63},
-                      ints, st.booleans())
+    def rep_of(c, r):
+        # the same number as a Python int, a NumPy integer or a float (the
+        # documented example formats 1e10); only exact representations
+        if r == "np.int64" and c >= 2 ** 63:
+            r = "np.uint64"
+        if r == "np.uint64" and c >= 2 ** 64:
+            r = "int"
+        if r in ("float", "np.float64") and int(float(c)) != c:
+            r = "int"
+        return {"count": c, "rep": r}
+    strat = st.builds(rep_of, ints, st.sampled_from(
+        ["int", "int", "np.int64", "np.uint64", "float", "np.float64"]))
 
     def check(ctx, case):
         ctx.record(case, case["count"] >= 1000,
-                   ["np" if case["np"] else "int",
+                   ["rep." + case["rep"],
                     "bits%02d" % (case["count"].bit_length() // 10 * 10)])
         check_count(ctx, case)
     ctx.run_hypothesis(strat, check, n)
